@@ -565,3 +565,46 @@ def run_finimatch(prog, ctx=None):
                        "" if ok else "elements from %s on are finalised up to {%s} but rebuilt only up to {%s}: the finalising loop is not bounded by %s" % (
                            fstart, ", ".join(sorted(fbounds)), ", ".join(sorted(ibounds)), ", ".join(missing)))
     return res
+
+
+def run_ctorfail(prog, ctx=None):
+    """CTORFAIL: when a constructor call inside an element loop is tested for failure, the failure path records how far
+    construction got (a store _used = loop position) before the function ends: leaving a used length that covers the
+    unconstructed rest hands raw memory to the finaliser later"""
+    res = Result("CTORFAIL")
+    files = set(ctx.get("files", [])) if ctx else None
+    for f in funcs_of(prog, files):
+        tc = [(b, i, e) for b, i, e, role in trait_calls(f) if role == "init"]
+        if not tc:
+            continue
+        loops = natural_loops(f)
+        for b, i, e in tc:
+            info = _loop_info(f, loops, b, e)
+            if info is None:
+                continue
+            head, body, counter, start, bounds = info
+            # the block that tests this call's result
+            fail = None
+            for bid, blk in f.blocks.items():
+                if blk.term and blk.term.get("cond") is not None and len(blk.succ) == 2:
+                    c = strip(blk.term["cond"], all_casts=True)
+                    cs = c
+                    if blk.term.get("cls") != "BinaryOperator":
+                        while cs.get("k") == "bin" and cs.get("op") in ("&&", "||"):
+                            cs = strip(cs["b"], all_casts=True)
+                    if cs.get("k") == "bin" and cs.get("op") == "<" and cval(cs["b"]) == 0 and strip(cs["a"], all_casts=True).get("k") == "call" and strip(cs["a"], all_casts=True).get("sid") == e.get("sid") and e.get("sid") is not None:
+                        fail = blk.succ[0]        # explicit error test (a success test `>= 0` has a fallback behind it)
+            if fail is None:
+                continue
+            stores = set()
+            for b2, i2, n in f.walk_all():
+                if n.get("k") == "bin" and n.get("op") == "=":
+                    l = strip(n["a"], lvalue_to_rvalue=False)
+                    r = strip(n["b"], all_casts=True)
+                    if l.get("k") == "mem" and l.get("f") == "_used" and r.get("k") == "ref" and r["d"].get("id") == counter["id"]:
+                        stores.add(b2.id)
+            reach = f.reachable_from(fail, avoid=stores) if fail not in stores else set()
+            ok = f.exit not in reach
+            res.ob("%s:failure of %s" % (f.qn, norm(show(e, f))[:40]), ok, f, e.get("l", f.line),
+                   "" if ok else "when this constructor fails the function can end without `_used = %s`: the used length may cover memory that holds no element" % counter["n"])
+    return res
